@@ -530,6 +530,8 @@ class FnTr:
             return f"(Py.mpf_ R prec {A[0]})"
         if n == 'mpmath.sqrt' and len(A) == 1:
             return f"(Py.mp_sqrt R prec {A[0]})"
+        if n in ('sqrt', 'math.sqrt') and len(A) == 1:      # `from math import sqrt`: binary64, correctly rounded
+            return f"(Py.math_sqrt R {A[0]})"
         raise Unsupported(f"call {n}")
 
     def cond(self, e):
@@ -1239,6 +1241,13 @@ FUNCTIONS = [
     ('rtree.py', 'Index', 'rtree'),           # a class: (module, class name, Lean name prefix)
     ('plot_utils.py', 'square_dist'),
     ('spatial_grid.py', 'Index', 'grid'),
+    # supplementary (X01): helpers outside the twenty listed properties
+    ('plot_utils.py', 'distance'),
+    ('plot_utils.py', 'dotProductXY'),
+    ('plot_utils.py', 'position_scale'),
+    ('plot_utils.py', 'points_near'),
+    ('plot_utils.py', 'vInitial_VF_A_Dx'),
+    ('plot_utils.py', 'vFinal_Vi_A_Dx'),
 ]
 
 
